@@ -60,6 +60,12 @@ def run(ctx):
                {'calls': sorted(c for c in r.calls if not c.startswith('@'))[:8]})
     ctx.require(nq >= 20, 'only %d query commands known' % nq)
 
+    # ------------------------------------------------------------------ PRIM-WALK
+    ctx.rule('PRIM-WALK', 'the repo-defined copy helper that DATASIZE-DOM treats as a primitive with a length contract (psf_strlcpy_crlf: reads at most srcmax bytes of src, writes at most destmax bytes '
+             'of dest) keeps that contract: forward dataflow of an upper bound of (pointer - limit) over its CFG; every access, including look-ahead reads src [k], lies before the limit', floor=8)
+    from engine.walk import check_walk
+    check_walk(ctx, 'PRIM-WALK', prog, prog.fn('psf_strlcpy_crlf', 'common.c'))
+
     # ------------------------------------------------------------------ DEFINED-RET
     ctx.rule('DEFINED-RET', 'sf_command has no path that falls off the end without a return value', floor=1)
     # every predecessor of the exit block ends with a ReturnStmt carrying a value
